@@ -14,12 +14,16 @@ from props import common
 UNDEF = "zz_undefined"
 
 
-def locate(text, ident, last=False):
+def locate(text, ident, last=False, span=None):
     """1-based line and 0-based column of the first (or last) occurrence of ident as a whole word
-    after the metadata block"""
+    inside the faulty fragment (`span` = its character range; default: after the metadata block)"""
     start = text.index("\n\n") if "\n\n" in text else 0
+    end = len(text)
+    if span:
+        start, end = span
     rx = re.compile(r"(?<![0-9A-Za-z_])" + re.escape(ident) + r"(?![0-9A-Za-z_])")
-    m = list(rx.finditer(text, start))[-1] if last else rx.search(text, start)
+    ms = list(rx.finditer(text, start, end))
+    m = ms[-1] if last else ms[0]
     before = text[: m.start()]
     return before.count("\n") + 1, len(before) - (before.rfind("\n") + 1)
 
@@ -94,7 +98,7 @@ INC_FAULTS = [
 DECLS = 'int n_ = 2\nfloat f_ = 0.5\ncomplex c_ = 1+2j\nstr s_ = "a"\nfloat array A_ =\n    1, 2\n    3, 4\n'
 
 
-def check_fault(cls, text, ident=None):
+def check_fault(cls, text, ident=None, span=None):
     ic, obj = core.impl_canon_loads(text)
     if ic[0] == "prog":
         return "faulty script (%s) is accepted: operations %s, variables %s" % (
@@ -104,7 +108,7 @@ def check_fault(cls, text, ident=None):
             return "%s name raises %r, not BlackbirdSyntaxError" % (cls, obj)
         msg = str(obj.args[0]) if obj.args else ""
         if ident is not None:
-            line, col = locate(text, ident, last=(cls == "undefinedAfterLoop"))
+            line, col = locate(text, ident, last=(cls == "undefinedAfterLoop"), span=span)
             if ("'%s'" % ident) not in msg:
                 return "message does not name the identifier %s: %r" % (ident, msg)
             m = re.search(r"\(line (\d+):(\d+)\)", msg)
@@ -121,11 +125,11 @@ def replay(ctx, data):
             old = os.getcwd()
             try:
                 os.chdir(root)
-                return check_fault(data["cls"], data["text"], data.get("ident"))
+                return check_fault(data["cls"], data["text"], data.get("ident"), data.get("span"))
             finally:
                 os.chdir(old)
                 shutil.rmtree(root, ignore_errors=True)
-        return check_fault(data["cls"], data["text"], data.get("ident"))
+        return check_fault(data["cls"], data["text"], data.get("ident"), data.get("span"))
     return oracles.generic_replay(data)
 
 
@@ -148,7 +152,9 @@ def run(ctx):
             at = ctx.rng.randrange(len(items) + 1)
             body_before = "".join(gen.r_item(it, gen.Layout()) for it in items[:at])
             body_after = "".join(gen.r_item(it, gen.Layout()) for it in items[at:])
-            text = "name f\nversion 1.0\n\n" + DECLS + body_before + frag + body_after
+            pre = "name f\nversion 1.0\n\n" + DECLS + body_before
+            text = pre + frag + body_after
+            span = [len(pre), len(pre) + len(frag)]
             ident = UNDEF if cls == "undefined" else (
                 slot.split(":")[1] if cls.startswith("reserved") or cls == "undefinedAfterLoop" else None)
             ctx.case(text)
@@ -157,9 +163,10 @@ def run(ctx):
             if rep == 0 and len(ctx.samples) < 4 and ctx.rng.random() < 0.1:
                 ctx.sample(text)
             texts.append(text)
-            msg = check_fault(cls, text, ident)
+            msg = check_fault(cls, text, ident, span)
             if msg:
-                ctx.violation("fault %s/%s: %s" % (cls, slot, msg), {"kind": "fault", "cls": cls, "text": text, "ident": ident})
+                ctx.violation("fault %s/%s: %s" % (cls, slot, msg),
+                              {"kind": "fault", "cls": cls, "text": text, "ident": ident, "span": span})
         # undefined name in a metadata option
         for kw in ("target", "type"):
             text = "name f\nversion 1.0\n\n%s dev (opt=%s)\n\nG | 0\n" % (kw, UNDEF)
